@@ -28,6 +28,7 @@ import (
 	"strings"
 	"sync/atomic"
 	"time"
+	"unsafe"
 
 	"rare/pkg/extractor"
 	"rare/pkg/extractor/batchers"
@@ -75,6 +76,86 @@ func (r *tfReader) Close() error { return nil }
 
 const tfExtract = "{src}|{line}|{1}|{2}"
 
+// tfSteps turns <chunks> and <lines> into the reader's steps.
+func tfSteps(chunks string, lines [][]byte) []tfStep {
+	var steps []tfStep
+	next := 0
+	if chunks != "." {
+		for _, tok := range strings.Split(chunks, ",") {
+			if tok == "p" {
+				steps = append(steps, tfStep{pause: true})
+				continue
+			}
+			k, _ := strconv.Atoi(tok)
+			var data []byte
+			for ; k > 0 && next < len(lines); k-- {
+				data = append(data, lines[next]...)
+				data = append(data, '\n')
+				next++
+			}
+			if len(data) > 0 {
+				steps = append(steps, tfStep{data: data})
+			}
+		}
+	}
+	if next < len(lines) { // lines the script does not mention arrive in one last chunk
+		var data []byte
+		for ; next < len(lines); next++ {
+			data = append(data, lines[next]...)
+			data = append(data, '\n')
+		}
+		steps = append(steps, tfStep{data: data})
+	}
+	return steps
+}
+
+// Op `tfheap <batch> <buffer> <flushms> <chunks> <lines>`: the InputBatch values themselves, as the REAL timed loop
+// sends them, all held until the channel is closed and only then looked at: does every batch have its own backing
+// array (no two slices start at the same address), is every capacity the batch size, and what do the slices read
+// NOW, numbered BatchStart+idx.  (How the lines were cut into batches depends on the real timer and is not part
+// of the answer.)  Model side: the slice-level machine of Model/C02Batch – array ids, capacities, late read.
+func c02TFHeapRun(f []string) string {
+	if len(f) != 6 {
+		return "bad-args"
+	}
+	batch, _ := strconv.Atoi(f[1])
+	buffer, _ := strconv.Atoi(f[2])
+	flushMs, _ := strconv.Atoi(f[3])
+	lines := UnHexList(f[5])
+	rd := &tfReader{pause: time.Duration(3*flushMs+1) * time.Millisecond, eof: make(chan struct{})}
+	rd.steps = tfSteps(f[4], lines)
+	b := batchers.VerifOpenReaderToChan("s0", rd, batch, buffer, time.Duration(flushMs)*time.Millisecond)
+	var held []extractor.InputBatch
+	for ib := range b.BatchChan() {
+		held = append(held, ib)
+	}
+	runtime.GC()
+	distinct, caps, srcs := 1, 1, 1
+	seen := map[unsafe.Pointer]bool{}
+	var rows []string
+	for _, ib := range held {
+		p := unsafe.Pointer(unsafe.SliceData(ib.Batch))
+		if seen[p] {
+			distinct = 0
+		}
+		seen[p] = true
+		if cap(ib.Batch) != batch {
+			caps = 0
+		}
+		if ib.Source != "s0" {
+			srcs = 0
+		}
+		for idx, l := range ib.Batch {
+			rows = append(rows, fmt.Sprintf("%d:%s", ib.BatchStart+uint64(idx), Hex(l)))
+		}
+	}
+	body := "."
+	if len(rows) > 0 {
+		body = strings.Join(rows, ",")
+	}
+	return fmt.Sprintf("ok distinct=%d caps=%d src=%d lines=%s", distinct, caps, srcs, body)
+}
+
 func c02TFlushRun(f []string) string {
 	if len(f) != 7 {
 		return "bad-args"
@@ -89,33 +170,7 @@ func c02TFlushRun(f []string) string {
 		return "bad-pattern"
 	}
 	rd := &tfReader{pause: time.Duration(3*flushMs+1) * time.Millisecond, eof: make(chan struct{})}
-	next := 0
-	if f[5] != "." {
-		for _, tok := range strings.Split(f[5], ",") {
-			if tok == "p" {
-				rd.steps = append(rd.steps, tfStep{pause: true})
-				continue
-			}
-			k, _ := strconv.Atoi(tok)
-			var data []byte
-			for ; k > 0 && next < len(lines); k-- {
-				data = append(data, lines[next]...)
-				data = append(data, '\n')
-				next++
-			}
-			if len(data) > 0 {
-				rd.steps = append(rd.steps, tfStep{data: data})
-			}
-		}
-	}
-	if next < len(lines) { // lines the script does not mention arrive in one last chunk
-		var data []byte
-		for ; next < len(lines); next++ {
-			data = append(data, lines[next]...)
-			data = append(data, '\n')
-		}
-		rd.steps = append(rd.steps, tfStep{data: data})
-	}
+	rd.steps = tfSteps(f[5], lines)
 	b := batchers.VerifOpenReaderToChan("s0", rd, batch, buffer, time.Duration(flushMs)*time.Millisecond)
 	ext, err := extractor.New(b.BatchChan(), &extractor.Config{Matcher: matchers.ToFactory(re), Extract: tfExtract, Workers: 1})
 	if err != nil {
@@ -186,6 +241,9 @@ func c02TFlushGen(r *Rand, tier string) []string {
 			cs = strings.Join(chunks, ",")
 		}
 		out = append(out, fmt.Sprintf("tflush %d %d %d %s %s %s", batch, buffer, flush, HexS(fm.pat), cs, HexListS(lines)))
+		if len(out)%3 != 0 {
+			out = append(out, fmt.Sprintf("tfheap %d %d %d %s %s", batch, buffer, flush, cs, HexListS(lines)))
+		}
 	}
 	nFixed, nRand := 10, 14
 	if tier == "thorough" {
